@@ -498,6 +498,15 @@ func (h *harness) evalGenerated(gd *GDoc, vars map[string]VarVal, dflt DefaultCo
 	if sample {
 		h.run.Sample(base)
 	}
+	if strings.Contains(base.Query, ": null") {
+		h.run.Count("generator:argument-spelled-null-literal")
+	}
+	for _, v := range vars {
+		if v.Kind == "null" {
+			h.run.Count("generator:null-valued-variable")
+			break
+		}
+	}
 	for _, name := range names {
 		c := base
 		c.OpName = name
